@@ -1,7 +1,7 @@
 (* Corr.v — comparison of model outputs with the implementation's observables,
    evaluated by vm_compute from generated case files (definitions only). *)
 From Coq Require Import ZArith List Bool Lia.
-From Dendro Require Import Base Tree Grid Criteria Compute Index Prune PruneGhost Newick IO DEq Cache.
+From Dendro Require Import Base Tree Grid Criteria Compute Index Prune PruneGhost Newick IO DEq Cache Plot Moments.
 Import ListNotations.
 Open Scope Z_scope.
 
@@ -120,3 +120,10 @@ Definition cache_case : Type := list tree * list Cache.op * list eobs.
 Definition cache_ok (c : cache_case) : bool :=
   let '(f, ops, es) := c in
   eobs_all (Cache.run_ops false {| Cache.st_forest := f; Cache.st_store := [] |} ops) es.
+
+(* ---- moments (C10): exact values of the model, as reduced fractions *)
+Definition moments_view (ps : list Moments.pt) (nd : nat) (dirs : list (list QArith_base.Q)) :=
+  (Plot.qpair (Moments.mom0 ps),
+   (map (fun i => Plot.qpair (Moments.mom1 ps i)) (seq 0 nd),
+    (map (fun i => map (fun j => Plot.qpair (Moments.mom2 ps i j)) (seq 0 nd)) (seq 0 nd),
+     map (fun u => (Plot.qpair (Moments.quad ps nd u u), Plot.qpair (Moments.dot u u))) dirs))).
